@@ -155,7 +155,17 @@ RULES = [
      "outside", "return value of progress(); nothing in the properties reads it"),
     (lambda r: r["func"] == "ExtendedToOriginalDecorator.stopTest" and "_tags.parent" in minus(r),
      "outside", "stopTest without a startTest (beyond the startTest-less skip pair, which is covered)"),
-    (lambda r: r["func"] == "MatchesStructure.update" and False, "", ""),
+    (lambda r: r["func"] == "MultiTestResult._get_failfast",
+     "equivalent", "MultiTestResult wraps every constituent in ExtendedToOriginalDecorator, which always has a failfast "
+                   "property: the default of the getattr is never used"),
+    (lambda r: r["func"] in ("ExtendedToOriginalDecorator.addSuccess", "ExtendedToOriginalDecorator.addUnexpectedSuccess") and "details is not None" in minus(r),
+     "equivalent", "details=None passed explicitly is what the extended targets' own default is; older targets raise the "
+                   "TypeError the next line already handles"),
+    (lambda r: r["func"] == "PlaceHolder.run" and "_timestamps[0]" in minus(r),
+     "outside", "only differs for a replayed test whose FIRST event carried no timestamp while a later one did: a "
+                "time(None) is sent before startTest; which clock such a test's start is read from is not stated"),
+    (lambda r: r["func"] == "TestProgram.__init__" and "self.module = None" in minus(r),
+     "equivalent", "unittest.TestProgram has `module = None` as a class attribute"),
 ]
 
 
